@@ -3902,13 +3902,20 @@ class Kconfig(object):
                 depend_on(sym, high)
                 depend_on(sym, cond)
 
-            for _, cond, source in sym.rev_values:
+            # The indirectly set values: their conditions and sources, and for
+            # string symbols the value itself, which may be another symbol
+            # ('set STR=OTHER' uses OTHER's value; int/hex/float use the literal)
+            for value, cond, source in sym.rev_values:
                 depend_on(sym, cond)
                 depend_on(sym, source)
+                if sym.orig_type == STRING:
+                    depend_on(sym, value)
 
-            for _, cond, source in sym.weak_rev_values:
+            for value, cond, source in sym.weak_rev_values:
                 depend_on(sym, cond)
                 depend_on(sym, source)
+                if sym.orig_type == STRING:
+                    depend_on(sym, value)
 
             # The direct dependencies. This is usually redundant, as the direct
             # dependencies get propagated to properties, but it's needed to get
